@@ -381,7 +381,7 @@ func main() {
 		c.Finish()
 	}
 	r := rand.New(rand.NewSource(c.Seed))
-	c.Rule("Sessions: TLC enumerates every conversation of Session.tla (length ≤ MaxMsgs, frame kinds object/error response, ≤ 2 faults out of lenup/lendn/lenhi/nonce/body/pad/tag/trunc/ext on distinct frames) with the demanded outcome; each replayed case = one schedule on one real RHP2 transport pair in one mode (requests renter→host, responses host→renter, raw responses + VerifyTag); non-trivial = at least one fault, or ≥ 2 frames delivered. Handshake: every (genesis, unique id)² × in-flight rewrite of version/genesis/unique id; non-trivial = all. Framing: one line = one real object of a stated shape written by the real writer and read by the real reader (or one never-ending stream, or one error response); non-trivial = distinct (object, shape, limit) lines whose message is not empty.")
+	c.Rule("Sessions: TLC enumerates every conversation of Session.tla (length ≤ MaxMsgs, frame kinds object/error response, ≤ 2 faults out of lenup/lendn/lenhi/nonce/body/pad/tag/trunc/ext on distinct frames) with the demanded outcome; each replayed case = one schedule on one real RHP2 transport pair in one mode (requests renter→host, responses host→renter, raw responses + VerifyTag); non-trivial = at least one fault, or ≥ 2 frames delivered. Size sweep: TLC (FrameSizes.tla) walks every encoded object length within W bytes of a boundary of the RHP2 framing rules (pad / do not pad; at / above the floor of the reader's limit) and per length the caller's limits on both sides of the declared size; one evaluation = one real object of exactly that length moved over a real transport pair in one mode (request, response, raw response), compared with the demanded wire size, verdict, identity and bytes consumed; distinct = distinct (mode, length, limit); repeats in other orders are not counted as distinct. Handshake: every (genesis, unique id)² × in-flight rewrite of version/genesis/unique id; non-trivial = all. Framing: one line = one real object of a stated shape written by the real writer and read by the real reader (or one never-ending stream, or one error response); non-trivial = distinct (object, shape, limit) lines whose message is not empty.")
 	c.Assume("in-memory net.Pipe pairs with a byte-rewriting proxy stand for the network; deadlines only classify a starved read as 'not delivered'")
 	c.Assume("authentication inside go.sia.tech/mux (gateway, RHP3) is not modelled: there only end-to-end delivery and prefix-safety under a flipped bit are checked")
 	c.Assume("gateway objects have no exported encoder: their wire size is mirrored from the exported encoders of the field types; acceptance is observed on the real stream reader")
@@ -413,6 +413,11 @@ func main() {
 		k.Session, _ = m["session"].(bool)
 		return k, k.Region
 	})
+	szm := c.MustTLC(vlib.TLCOpts{SpecDirs: []string{"net"}, Module: "FrameSizes", Config: "FrameSizesMC.cfg", Workers: 4})
+	c.Cov("frame_size_model_states", szm.Distinct)
+	sizes := loadSizes(c)
+	c.Cov("size_cases_enumerated", len(sizes))
+	c.Cov("limit_slacks_enumerated", edgeSlacks)
 	c.Cov("session_cases_enumerated", len(scheds))
 	c.Cov("handshake_cases_enumerated", len(hss))
 	if len(scheds) < 1000 || len(hss) < 1000 || len(kxs) != 6 {
@@ -523,6 +528,9 @@ func main() {
 	wgSlow.Add(1)
 	go func() { defer wgSlow.Done(); parallel(48, slow) }() // these sleep on a deadline
 	parallel(8, fast)
+
+	// size sweep of the RHP2 framing (FrameSizes.tla) over real sessions
+	sw := runSweep(c, sizes, r)
 
 	// handshakes
 	hkeys := make([]string, 0, len(hss))
@@ -641,7 +649,7 @@ func main() {
 	}
 	parallel(8, cjobs)
 	wgSlow.Wait()
-	c.Traces(evals)
+	c.Traces(evals + sw.sessions)
 
 	// vacuity guards: sessions
 	for _, k := range []string{"lenup", "lendn", "lenhi", "nonce", "body", "pad", "tag", "trunc", "ext"} {
@@ -681,6 +689,7 @@ func main() {
 	judgeFraming(c, rec, rejects, fseed)
 	c.Traces(1)
 	selftest(c, rec, scheds)
+	selftestSizes(c, sizes)
 	distinct := map[string]bool{}
 	for _, l := range rec.lines {
 		if enc, _ := l["enc"].(int); l["ev"] == "shape" && enc == 0 {
@@ -689,7 +698,7 @@ func main() {
 		b, _ := json.Marshal(l)
 		distinct[string(b)] = true
 	}
-	c.Count(evals+int64(len(rec.lines)), nontriv+int64(len(distinct)))
+	c.Count(evals+sw.evals+int64(len(rec.lines)), nontriv+sw.distinct+int64(len(distinct)))
 	objs := make([]string, 0, len(rec.objs))
 	perFam := map[string]int{}
 	for o := range rec.objs {
@@ -818,6 +827,16 @@ func replay(c *vlib.Ctx) {
 			rc.Obs = o
 			c.Violation(key, what, rc)
 		}
+	case "size":
+		var ss sweepSession
+		json.Unmarshal(f.Case, &ss)
+		ss.Obs = nil
+		n := 0
+		runSweepSession(c, ss, func(mode string, sm sweepMsg, o sweepObs) {
+			n++
+			fmt.Printf("replay size %s %s: observed %+v\n", mode, sm.C.key(), o)
+		})
+		fmt.Printf("replay size sweep session (%s): %d messages reached\n", ss.Mode, n)
 	case "handshake":
 		var p struct {
 			Case hsCase `json:"case"`
@@ -865,6 +884,7 @@ func replay(c *vlib.Ctx) {
 			Seed          int64
 		}
 		json.Unmarshal(f.Case, &p)
+		loadSizes(c) // the slacks around the limits come from the model
 		rec := collectFraming(c, p.Seed, framingSel{p.Fam, p.Obj, p.Dir})
 		rejects := validateFraming(c, rec)
 		var keep []reject
